@@ -530,6 +530,14 @@ func groupEvents(tr *hx.Trace, r *hx.Rng, thorough bool) {
 				"ex": hx.Ints(refmodel.LE(x, 32)), "ey": hx.Ints(refmodel.LE(y, 32)), "k": hx.Ints(refmodel.LE(k, 32))})
 		}
 	}
+	// the precomputed odd multiples of B used by the double-base multiplication: entry i = [2i+1]B in niels form
+	for i := 0; i < 32; i++ {
+		t := ge25519.VerifNielsSlidingMultiple(i)
+		k := big.NewInt(int64(2*i + 1))
+		x, y := refmodel.BaseMul(k).Affine()
+		emit("slidingtable", map[string]interface{}{"i": i, "ysubx": contract(&t.YsubX), "xaddy": contract(&t.XaddY), "t2d": contract(&t.T2d),
+			"ex": hx.Ints(refmodel.LE(x, 32)), "ey": hx.Ints(refmodel.LE(y, 32)), "k": hx.Ints(refmodel.LE(k, 32))})
+	}
 	// fixed-base multiplication
 	var scalars []*big.Int
 	two := func(n uint) *big.Int { return new(big.Int).Lsh(big.NewInt(1), n) }
